@@ -83,6 +83,9 @@ type TermCtx struct {
 	evalVal []uint64
 	evalGen []uint32
 	gen     uint32
+	small8  [256]*Term
+	small32 [256]*Term
+	small64 [256]*Term
 }
 
 func NewTermCtx() *TermCtx {
@@ -273,7 +276,26 @@ func (c *TermCtx) BV(v uint64, w uint8) *Term {
 	if w == 0 {
 		panic("BV width 0")
 	}
-	return c.mk(&Term{Op: OConst, W: w, K: v & mask(w)})
+	v &= mask(w)
+	// fast path for the constants that dominate interpretation
+	if v < 256 {
+		var slot **Term
+		switch w {
+		case 8:
+			slot = &c.small8[v]
+		case 64:
+			slot = &c.small64[v]
+		case 32:
+			slot = &c.small32[v]
+		}
+		if slot != nil {
+			if *slot == nil {
+				*slot = c.mk(&Term{Op: OConst, W: w, K: v})
+			}
+			return *slot
+		}
+	}
+	return c.mk(&Term{Op: OConst, W: w, K: v})
 }
 
 func (c *TermCtx) Sym(name string, w uint8) *Term {
